@@ -125,6 +125,26 @@ def check_symbolic_step(chk, prog, sim, up, get):
     st.labels[oid] = "self"
     ok = True
     n_some = 0
+    # roles of the state leaves are found by type and constructor value, not by field name (private fields may be renamed or grouped
+    # into a private sub-struct): cache = Result<Option<Datum>>, previous error = Option<Datum<f32>>, integral = the f32 leaf the
+    # constructor sets to a constant, setpoint = the f32 leaf the constructor takes from an argument, gains = PIDKValues
+    import rules.C05 as C05
+    names = C05.flat_names(sim, sty)
+    st0c, oid0, _ = N.fresh_object(sim, prog, NAME)
+    s0 = C05.flat(sim, None, sim.final_value(st0c, st0c.mem[oid0]))
+    role = {}
+    for i, (n, t) in enumerate(names):
+        if C05.is_cache_ty(t):
+            role["output"] = i
+        elif is_adt(t, "Option") and is_adt(t["args"][0], "Datum"):
+            role["prev"] = i
+        elif is_adt(t, "PIDKValues"):
+            role["kvals"] = i
+        elif t.get("k") == "prim" and t.get("name") == "f32":
+            role["integral" if isinstance(s0.fields[i], Const) else "setpoint"] = i
+    if set(role) != {"output", "prev", "kvals", "setpoint", "integral"}:
+        raise AnchorMissing("PIDControllerStream state roles (found %s)" % sorted(role))
+    pname = {k: "self." + names[i][0] for k, i in role.items()}
     for leaf in N.update_with(sim, up, ug, st, oid, "S", "n"):
         chk.evaluated(1, nontrivial=(key, repr(leaf.pc)))
         if leaf.kind == "panic":
@@ -133,26 +153,26 @@ def check_symbolic_step(chk, prog, sim, up, get):
             chk.violation("analysis-incomplete", key, "symbolic PID step: %s" % leaf.info.get("msg"))
             ok = False
             continue
-        prevs = [p for p in leaf.pc if p[0] == "variant" and p[1] == "self.prev_error"]
+        prevs = [p for p in leaf.pc if p[0] == "variant" and p[1] == pname["prev"]]
         post = sim.final_value(leaf.state, leaf.state.mem[oid])
-        names = [n for n, _ in sim.adt_fields(sty)]
-        f = dict(zip(names, post.fields))
-        spt, I0 = A.sym("self.setpoint"), A.sym("self.int_error")
-        kp, ki, kd = A.sym("self.kvals.kp"), A.sym("self.kvals.ki"), A.sym("self.kvals.kd")
+        pf = C05.flat(sim, None, post).fields
+        f = {k: pf[i] for k, i in role.items()}
+        spt, I0 = A.sym(pname["setpoint"]), A.sym(pname["integral"])
+        kp, ki, kd = [A.sym(pname["kvals"] + "." + g) for g in ("kp", "ki", "kd")]
         e = spt - A.sym("vn")
         out = K.classify_output(sim, leaf.state, f["output"])
         if prevs and prevs[0][2] == "Some":
             n_some += 1
-            pe = A.sym("self.prev_error.Some.0.value")
-            dt = (A.sym("tn") - A.sym("self.prev_error.Some.0.time.0")) / 10**9
+            pe = A.sym(pname["prev"] + ".Some.0.value")
+            dt = (A.sym("tn") - A.sym(pname["prev"] + ".Some.0.time.0")) / 10**9
             I1 = I0 + dt * (pe + e) / 2
             D = (e - pe) / dt
         else:
             I1 = I0
             D = 0
         try:
-            good = out and out[0] == "S" and out[1] == Sym("tn") and A.equal(A.to_sympy(out[2]), kp * e + ki * I1 + kd * D) and A.equal(A.to_sympy(f["int_error"]), I1)
-            pe_new = f["prev_error"]
+            good = out and out[0] == "S" and out[1] == Sym("tn") and A.equal(A.to_sympy(out[2]), kp * e + ki * I1 + kd * D) and A.equal(A.to_sympy(f["integral"]), I1)
+            pe_new = f["prev"]
             good = good and isinstance(pe_new, Enum) and pe_new.vname == "Some" and A.equal(A.to_sympy(pe_new.fields[0].fields[1]), e) \
                 and pe_new.fields[0].fields[0].fields[0] == Sym("tn")
         except Exception:
